@@ -56,6 +56,7 @@ PROPS["C11"] = dict(
                  timeout={"quick": 300, "thorough": 900})],
     rule="one case per (with, only, ignore missing, name form, behaviour of the included template, placement); two real "
          "renders per case: the program and the program with the include removed (2-run non-interference); two-level includes; "
+         "included templates that set from inside if branches (else-only / then and elseif bodies, nested); "
          "defined-tests in every read probe; scenarios with relative names (./x ../x from two directories, in loops, under "
          "extends) and with a loader failure / a missing template under ignore missing, each served directly and through the "
          "loader layouts only / front / back / chain; every case is non-trivial",
@@ -215,6 +216,11 @@ def _c15_fs(lines, seed, tier):
         # ... the first loader of the chain as a FileSystemLoader (files written and removed)
         c = dict(c, chain=False, fschain=True, key=key + "+fschain", tags=list(c["tags"]) + ["fschain"])
         out.append(json.dumps(c) + "\n")
+        # ... the first loader of the chain as a real ArrayLoader whose version 1 is the EMPTY source (histories without a
+        # second name for a loaded template: an empty output does not say which name it was loaded under)
+        if not any(op.get("op") == "regalias" for op in c["ops"]):
+            c = dict(c, fschain=False, achain=True, key=key + "+achain", tags=[t for t in c["tags"] if t != "fschain"] + ["arraychain"])
+            out.append(json.dumps(c) + "\n")
     return out
 
 
@@ -242,7 +248,9 @@ PROPS["C15"] = dict(
          "operation the served version (or not-found), each loader's Load-call counters and the cached names are compared with the model; "
          "a sample of all histories is replayed a second time with loader 2 as a real FileSystemLoader on a scratch directory; "
          "registration of compiled templates (older / newer stamps); every history of 5 (6) operations on one name with the loader "
-         "as a FileSystemLoader with two search paths and auto-reload on",
+         "as a FileSystemLoader with two search paths and auto-reload on; a sample of the histories without auto-reload through a "
+         "ChainLoader over the two loaders, over a FileSystemLoader and loader 2, and over a real ArrayLoader (whose version 1 is the "
+         "EMPTY source) and loader 2",
     assumptions=["CacheLoaders.tla Render(n) is the rule set; TLC checks the property's six sentences P1..P6 as action properties",
                  "a content change always raises the timestamp; deletion only in the plain loader; a name whose current source was "
                  "registered is rendered only while the cache is on (what a registered string means with the cache off is not determined)"],
